@@ -294,7 +294,7 @@ package fsm
 //@   loop 0 invariant piter.vV == (*reader).vV
 //@   loop 0 invariant piter.vP == (*reader).vP && piter.lo == bytesOf((*opts).LowerBound) && piter.hi == bytesOf((*opts).UpperBound) && fresh(piter)
 //@   loop 0 invariant response != nil && fresh(response) && !response.More && response.Count >= 0
-//@   loop 0 invariant !yield.stopped && yield.pairs + response.Count == i && yield.prevMore && (yield.nchunks > 0 ==> yield.lastMore)
+//@   loop 0 invariant !yield.stopped && yield.pairs + response.Count == i && yield.prevMore && yield.nchunks >= 0 && (yield.nchunks > 0 ==> yield.lastMore)
 //@   loop 0 invariant *limit == 0 || i <= *limit
 
 // ---------------------------------------------------------------- deletes (C01, C12)
